@@ -188,6 +188,8 @@ def worker_init() -> None:
             if key not in seen:
                 seen.add(key)
                 pairs.append((name, key, "plain"))
+                if t["kind"] == "populate":
+                    continue
                 if t["kind"] == "leaf" and t["field"] in FREE_TEXT_FIELDS and "str" in t["type"]:
                     pairs.append((name, key, "meta"))
                 if t["kind"] == "leaf" and "str" in t["type"] and "Union" not in t["type"]:
@@ -368,6 +370,22 @@ def type_str(f) -> str:
     return t.replace("typing.", "")
 
 
+_POPULATE_OK: Optional[set] = None
+
+
+def populate_allowed(cls: str, field: str) -> bool:
+    """'populate' perturbations are restricted to the (class, field) pairs that were validated to round-trip on
+    the pinned tree (vsim/props/c11_populate_ok.json, produced by tools/triage_populate.py): the synthesizer is
+    type-directed and may build elements that are not valid ODX, so a failing pair is not evidence by itself."""
+    global _POPULATE_OK
+    if os.environ.get("VERIF_C11_ALL_POPULATE"):
+        return True
+    if _POPULATE_OK is None:
+        p = os.path.join(os.path.dirname(os.path.abspath(__file__)), "c11_populate_ok.json")
+        _POPULATE_OK = set(json.load(open(p))) if os.path.exists(p) else set()
+    return f"{cls}.{field}" in _POPULATE_OK
+
+
 def context_key(owner: Any) -> str:
     """Coarse context of an element (used to pick instances of a (class, field) pair in different
     contexts): for parameters the kind and base type of the referenced data object."""
@@ -375,7 +393,10 @@ def context_key(owner: Any) -> str:
     if dop is None:
         return ""
     dct = getattr(dop, "diag_coded_type", None)
-    return type(dop).__name__ + ":" + (dct.base_data_type.name if dct is not None else "")
+    pt = getattr(dop, "physical_type", None)
+    cm = getattr(dop, "compu_method", None)
+    return ":".join([type(dop).__name__, dct.base_data_type.name if dct is not None else "", type(dct).__name__,
+                     pt.base_data_type.name if pt is not None else "", type(cm).__name__ if cm is not None else ""])
 
 
 def enumerate_targets(db) -> List[Dict[str, Any]]:
@@ -402,19 +423,156 @@ def enumerate_targets(db) -> List[Dict[str, Any]]:
         if is_derived(type(owner).__name__, name):
             return
         t = type_str(fld)
-        if is_leaf(v):
-            if v is None and not any(x in t for x in ("Optional[str]", "Optional[bool]", "Optional[int]", "Optional[float]")):
-                return
+        if is_leaf(v) and not (v is None and not any(x in t for x in ("Optional[str]", "Optional[bool]", "Optional[int]", "Optional[float]"))):
             out.append({"path": path, "cls": type(owner).__name__, "field": name, "type": t, "kind": "leaf",
                         "ctx": context_key(owner)})
         elif isinstance(v, list) and v and all(dataclasses.is_dataclass(x) and not hasattr(x, "odx_id") for x in v):
             out.append({"path": path, "cls": type(owner).__name__, "field": name, "type": t, "kind": "list"})
+        if (v is None or (isinstance(v, list) and len(v) == 0)) and _dc_in_type(fld.type) is not None and \
+                populate_allowed(type(owner).__name__, name):
+            # an element the base database does not contain at this place: can be populated
+            out.append({"path": path, "cls": type(owner).__name__, "field": name, "type": t, "kind": "populate",
+                        "ctx": context_key(owner)})
 
     seen: set = set()
     last_dc: List[Any] = [None]
     for rname, r in roots(db):
         walk(r, [rname], visit, seen)
     return out
+
+
+# ------------------------------------------------------------------ populating absent elements
+class Unsynthesizable(Exception):
+    pass
+
+
+def _dc_in_type(tp) -> Optional[Tuple[str, Any]]:
+    """('opt'|'list'|'nil', dataclass) if tp is Optional[DC], List[DC] or NamedItemList[DC]."""
+    import typing
+    origin = typing.get_origin(tp)
+    args = typing.get_args(tp)
+    if origin is typing.Union and len(args) == 2 and type(None) in args:
+        inner = [a for a in args if a is not type(None)][0]
+        if isinstance(inner, type) and dataclasses.is_dataclass(inner):
+            return "opt", inner
+        return None
+    if origin in (list, List) and args and isinstance(args[0], type) and dataclasses.is_dataclass(args[0]):
+        return "list", args[0]
+    if origin is not None and getattr(origin, "__name__", "") == "NamedItemList" and args and \
+            isinstance(args[0], type) and dataclasses.is_dataclass(args[0]):
+        return "nil", args[0]
+    return None
+
+
+def synthesize(cls, frags, index: Dict[str, List[Any]], counter: List[int], depth: int = 0):
+    """Type-directed construction of an instance of an odxtools dataclass that the base database does
+    not contain: primitives get visible values, references point to an existing object of the class the
+    field name suggests, nested required elements are synthesized recursively (depth-limited)."""
+    import typing
+
+    from odxtools.nameditemlist import NamedItemList
+    from odxtools.odxlink import OdxLinkId, OdxLinkRef
+    if depth > 3 or cls.__name__ in ("OdxDocFragment",):
+        raise Unsynthesizable(cls.__name__)
+    kw = {}
+    for f in dataclasses.fields(cls):
+        if not f.init:
+            continue
+        tp = f.type
+        origin = typing.get_origin(tp)
+        args = typing.get_args(tp)
+        optional = origin is typing.Union and type(None) in args
+        inner = [a for a in args if a is not type(None)][0] if optional and len(args) == 2 else tp
+        counter[0] += 1
+        n = counter[0]
+        if inner is str:
+            kw[f.name] = f"V_{f.name}_{n}" if f.name in ("short_name",) else (f"v {f.name} {n}" if f.name in FREE_TEXT_FIELDS else f"v{n}")
+        elif inner is bool:
+            kw[f.name] = True
+        elif inner is int:
+            kw[f.name] = 1 + n % 3
+        elif inner is float:
+            kw[f.name] = 1.5
+        elif inner is bytes:
+            kw[f.name] = b"\x01"
+        elif isinstance(inner, type) and issubclass(inner, enum.Enum):
+            kw[f.name] = list(inner)[0]
+        elif inner is OdxLinkId:
+            kw[f.name] = OdxLinkId(f"synth.{cls.__name__}.{n}", list(frags))
+        elif inner is OdxLinkRef:
+            if optional and not f.name.endswith("_ref"):
+                kw[f.name] = None
+                continue
+            base = f.name[:-4] if f.name.endswith("_ref") else f.name
+            want = base.replace("_", "").lower()
+            cands = next((objs for cname, objs in sorted(index.items()) if cname.lower() == want and objs), [])
+            # prefer a target in the same document (the writer emits ID-REF without DOCREF in most places)
+            doc = frags[0].doc_name if frags else None
+            same = [o for o in cands if o.odx_id.doc_fragments and o.odx_id.doc_fragments[0].doc_name == doc]
+            tgt = (same or cands or [None])[0]
+            if tgt is None:
+                if optional:
+                    kw[f.name] = None
+                    continue
+                raise Unsynthesizable(f"{cls.__name__}.{f.name}")
+            kw[f.name] = OdxLinkRef.from_id(tgt.odx_id)
+        elif typing.get_origin(inner) in (list, List):
+            kw[f.name] = []
+        elif typing.get_origin(inner) is not None and getattr(typing.get_origin(inner), "__name__", "") == "NamedItemList":
+            kw[f.name] = NamedItemList()
+        elif typing.get_origin(inner) in (dict, Dict):
+            kw[f.name] = {}
+        elif isinstance(inner, type) and dataclasses.is_dataclass(inner):
+            kw[f.name] = None if optional else synthesize(inner, frags, index, counter, depth + 1)
+        elif optional:
+            kw[f.name] = None
+        else:
+            raise Unsynthesizable(f"{cls.__name__}.{f.name}: {tp}")
+    return cls(**kw)
+
+
+def identifiable_index(db) -> Dict[str, List[Any]]:
+    idx: Dict[str, List[Any]] = {}
+
+    def visit(path, v, owner, fld):
+        pass
+
+    seen: set = set()
+
+    def rec(v):
+        if is_leaf(v):
+            return
+        if isinstance(v, (list, tuple)):
+            for x in v:
+                rec(x)
+            return
+        if isinstance(v, dict):
+            for x in v.values():
+                rec(x)
+            return
+        if dataclasses.is_dataclass(v) and not isinstance(v, type):
+            if id(v) in seen:
+                return
+            seen.add(id(v))
+            if hasattr(v, "odx_id") and type(v).__name__ not in ("OdxLinkRef",):
+                idx.setdefault(type(v).__name__, []).append(v)
+            for f in public_fields(v):
+                rec(getattr(v, f.name))
+
+    for _, r in roots(db):
+        rec(r)
+    return idx
+
+
+def nearest_frags(db, path: List[Any]):
+    cur: Any = db
+    frags = None
+    for step in path:
+        cur = step_into(cur, step)
+        oid = getattr(cur, "odx_id", None)
+        if oid is not None and hasattr(oid, "doc_fragments"):
+            frags = oid.doc_fragments
+    return frags or []
 
 
 def get_path(db, path: List[Any]) -> Tuple[Any, Any]:
@@ -453,6 +611,8 @@ def new_value(target: Dict[str, Any], old: Any, vclass: str, n: int) -> Tuple[bo
     name = target["field"]
     if target["kind"] == "list":
         return True, "append-copy"
+    if target["kind"] == "populate":
+        return (True, "populate") if vclass == "plain" else (False, None)
     if vclass == "empty":
         # the empty string: unusual but legal for free-text content
         if target["kind"] != "leaf" or not (isinstance(old, str) or (old is None and "Optional[str]" in t)):
@@ -504,6 +664,20 @@ def apply_perturbation(db, pert: Dict[str, Any]) -> Tuple[Any, Any]:
     owner, last = get_path(db, pert["path"])
     old = step_into(owner, last)
     val = pert["value"]
+    if val == "populate":
+        fld = next(f for f in dataclasses.fields(owner) if f.name == last)
+        kind, dc = _dc_in_type(fld.type)
+        try:
+            obj = synthesize(dc, nearest_frags(db, pert["path"][:-1]), identifiable_index(db), [pert.get("n", 0)])
+        except Unsynthesizable:
+            raise
+        except Exception as e:  # noqa: BLE001 - the class refuses the synthesized field values (__post_init__)
+            raise Unsynthesizable(f"{dc.__name__}: {type(e).__name__}")
+        if kind == "opt":
+            setattr(owner, last, obj)
+        else:
+            old.append(obj)
+        return None, type(obj).__name__
     if val == "append-copy":
         item = copy.deepcopy(old[-1])
         if hasattr(item, "short_name") and isinstance(item.short_name, str):
@@ -558,6 +732,8 @@ def compare(a: Any, b: Any, path: List[Any], seen: set) -> Optional[Tuple[List[A
             return None
         seen.add((id(a), id(b)))
         for f in public_fields(a):
+            if STATE.get("skip_derived_in_compare") and f.name != "short_name" and is_derived(type(a).__name__, f.name):
+                continue  # a synthesized element carries arbitrary values in fields the parser derives from context
             d = compare(getattr(a, f.name), getattr(b, f.name, None), path + [f.name], seen)
             if d:
                 return d
@@ -568,6 +744,8 @@ def compare(a: Any, b: Any, path: List[Any], seen: set) -> Optional[Tuple[List[A
 
 
 def short(v: Any) -> Any:
+    if dataclasses.is_dataclass(v) and not isinstance(v, type):
+        return f"<{type(v).__name__}>"
     if isinstance(v, enum.Enum):
         return f"{type(v).__name__}.{v.name}"
     if isinstance(v, bytes):
@@ -827,6 +1005,7 @@ def execute(trace: Dict[str, Any]) -> Dict[str, Any]:
     log.ev("sim", "config", {"base": trace["base"], "pert": [cls, field, vclass], "entries": trace["entries"],
                              "clock": trace["clock"][1]})
     workdir = tempfile.mkdtemp(prefix="vsim-c11-")
+    STATE["skip_derived_in_compare"] = bool(pert and pert.get("kind") == "populate")
     try:
         with W.quiet():
             try:
@@ -872,7 +1051,12 @@ def execute(trace: Dict[str, Any]) -> Dict[str, Any]:
                                 continue
                             pert = {**pert, "path": pth, "value": val}
                             counters["retried_other_instance"] = counters.get("retried_other_instance", 0) + 1
-                        old, new = apply_perturbation(db0, pert)
+                        try:
+                            old, new = apply_perturbation(db0, pert)
+                        except Unsynthesizable as e:
+                            outcome = "discarded"
+                            log.ev("sim", "unsynthesizable", str(e)[:80])
+                            continue
                         try:
                             db0.refresh()
                             outcome = "ok"
@@ -1044,6 +1228,12 @@ def execute(trace: Dict[str, Any]) -> Dict[str, Any]:
 
 def path_str(path: List[Any]) -> str:
     return "/".join(str(p) if not isinstance(p, (list, tuple)) else f"[{p[1]}]" for p in path)
+
+
+def replay_priority(trace: Dict[str, Any]) -> int:
+    """Traces that carry their own write history (prelude) replay in a fresh interpreter even when the
+    defect depends on what the process wrote before."""
+    return 0 if trace.get("prelude") else 1
 
 
 # ------------------------------------------------------------------ minimisation
